@@ -134,111 +134,10 @@ func (c *Check) inboundAdmission(rule string) {
 
 func checkC13(c *Check) {
 	p := c.P
-	fn := p.Fn("Server.handleInboundConn")
-	if fn == nil {
-		return
-	}
-	rule := "C13.1 lookup-and-destination"
-	// patterns
-	isExists := func(e *Expr) bool { // comma-ok of the peers lookup
-		return e.Op == "ex" && len(e.Args) == 2 && e.Args[0].Op == "val" && isBoolType(e.Typ)
-	}
-	isSplitErr := func(which int) func(e *Expr) bool {
-		return func(e *Expr) bool {
-			if e.Op != "nn" {
-				return false
-			}
-			x := e.Args[0]
-			if x.Op != "ex" || x.Args[0].Op != "rcall" || x.Args[0].S != "net.SplitHostPort" {
-				return false
-			}
-			isRemote := strings.Contains(x.Args[0].Key, "RemoteAddr")
-			return (which == 0) == isRemote
-		}
-	}
-	isLocalValid := func(e *Expr) bool {
-		return isCallNamed(e, "netip.Addr.IsValid") && strings.Contains(e.Key, "fa:localAddress(")
-	}
-	isAddrCmp := func(e *Expr) bool { // p.options.localAddress != laddr
-		op, x, y, ok := cmpOf(e)
-		return ok && (op == "!=" || op == "==") && (strings.Contains(x.Key, "fa:localAddress(") || strings.Contains(y.Key, "fa:localAddress("))
-	}
-	addrDiffers := func(differs bool) func(e *Expr) (ISet, bool) {
-		return func(e *Expr) (ISet, bool) {
-			if !isAddrCmp(e) {
-				return nil, false
-			}
-			op, _, _, _ := cmpOf(e)
-			return isConst(b2i((op == "!=") == differs)), true
-		}
-	}
-	type want struct {
-		name    string
-		hook    func(e *Expr) (ISet, bool)
-		handoff bool
-	}
-	okRemote := rangeHook(isSplitErr(0), isConst(0))
-	found := rangeHook(isExists, isConst(1))
-	for _, w := range []want{
-		{"source address unparsable", rangeHook(isSplitErr(0), isConst(1)), false},
-		{"source is not a configured peer", hooks(okRemote, rangeHook(isExists, isConst(0))), false},
-		{"configured peer, no local address configured", hooks(okRemote, found, rangeHook(isLocalValid, isConst(0))), true},
-		{"local address configured, destination unparsable", hooks(okRemote, found, rangeHook(isLocalValid, isConst(1)), rangeHook(isSplitErr(1), isConst(1))), false},
-		{"local address configured, destination differs", hooks(okRemote, found, rangeHook(isLocalValid, isConst(1)), rangeHook(isSplitErr(1), isConst(0)), addrDiffers(true)), false},
-		{"local address configured, destination equal", hooks(okRemote, found, rangeHook(isLocalValid, isConst(1)), rangeHook(isSplitErr(1), isConst(0)), addrDiffers(false)), true},
-	} {
-		a := NewAnalysis(p, fn)
-		a.AtomHook = w.hook
-		a.Run()
-		if len(a.Undecided) > 0 {
-			c.undecided(rule, "Server.handleInboundConn", w.name, p.Pos(fn.Pos()), a.Undecided[0])
-			continue
-		}
-		ok := len(a.Returns) > 0
-		detail := ""
-		for _, r := range a.Returns {
-			st := r.State
-			closed, handed := st.must["call:invoke:net.Conn.Close"], st.must["call:peer.incomingConnection"]
-			mayClose, mayHand := st.may["call:invoke:net.Conn.Close"], st.may["call:peer.incomingConnection"]
-			if w.handoff && !(handed && !mayClose) {
-				ok = false
-				detail = "the connection must be handed to the peer (and not closed here)"
-			}
-			if !w.handoff && !(closed && !mayHand) {
-				ok = false
-				detail = "the connection must be closed and never handed to a peer"
-			}
-			if st.may["call:invoke:net.Conn.Write"] {
-				ok = false
-				detail = "nothing may be written on an inbound connection here"
-			}
-		}
-		c.require(ok, rule, "Server.handleInboundConn", w.name, p.Pos(fn.Pos()), detail)
-	}
-	// the lookup key is the host part of the remote address; the comparison
-	// uses the parsed host part of the local address
-	a := NewAnalysis(p, fn)
-	a.Run()
-	nl := 0
-	allInstrs(fn, func(in ssa.Instruction) {
-		lk, ok := in.(*ssa.Lookup)
-		if !ok {
-			return
-		}
-		nl++
-		for _, st := range a.At[in] {
-			k := a.exprOf(st, nil, lk.Index)
-			okK := k.Op == "ex" && strings.Contains(k.Key, "net.SplitHostPort") && strings.Contains(k.Key, "RemoteAddr")
-			if okK {
-				i, _ := k.Args[1].IsConst()
-				okK = i == 0
-			}
-			c.require(okK, rule, "Server.handleInboundConn", "lookup key", p.InstrPos(in), "the registry is looked up with the host part of conn.RemoteAddr()")
-		}
-		held := p.lockHeld(fn, "mu")
-		c.require(held[in], "C13.4 registry-locked", "Server.handleInboundConn", "lookup under lock", p.InstrPos(in), "the lookup runs with Server.mu held")
-	})
-	c.floor(rule, nl, 1, "registry lookups in handleInboundConn")
+	c.rendezvousChannels("C13.3 damping-decided-before-next-transition", "errorCh")
+	c.registryLocked("C13.4 registry-locked")
+	c.backoffArithmetic("C13.3 hold-down-length")
+	c.inboundLookup("C13.1 lookup-and-destination", "C13.4 registry-locked")
 	// map keys agree across insert / lookup / delete: String() of a netip.Addr
 	for _, s := range []string{"Server.AddPeer", "Server.DeletePeer", "Server.GetPeer"} {
 		g := p.Fn(s)
@@ -382,4 +281,115 @@ func (c *Check) connUsesInbound(rule string) {
 		}
 		c.floor(rule, n, 2, "uses of the conn parameter in "+s)
 	}
+}
+
+// inboundLookup: handleInboundConn hands a connection to exactly the peer
+// registered under the host part of its remote address (and only on the
+// configured local address), and closes every other connection.
+func (c *Check) inboundLookup(rule, lockRule string) {
+	p := c.P
+	fn := p.Fn("Server.handleInboundConn")
+	if fn == nil {
+		return
+	}
+	// patterns
+	isExists := func(e *Expr) bool { // comma-ok of the peers lookup
+		return e.Op == "ex" && len(e.Args) == 2 && e.Args[0].Op == "val" && isBoolType(e.Typ)
+	}
+	isSplitErr := func(which int) func(e *Expr) bool {
+		return func(e *Expr) bool {
+			if e.Op != "nn" {
+				return false
+			}
+			x := e.Args[0]
+			if x.Op != "ex" || x.Args[0].Op != "rcall" || x.Args[0].S != "net.SplitHostPort" {
+				return false
+			}
+			isRemote := strings.Contains(x.Args[0].Key, "RemoteAddr")
+			return (which == 0) == isRemote
+		}
+	}
+	isLocalValid := func(e *Expr) bool {
+		return isCallNamed(e, "netip.Addr.IsValid") && strings.Contains(e.Key, "fa:localAddress(")
+	}
+	isAddrCmp := func(e *Expr) bool { // p.options.localAddress != laddr
+		op, x, y, ok := cmpOf(e)
+		return ok && (op == "!=" || op == "==") && (strings.Contains(x.Key, "fa:localAddress(") || strings.Contains(y.Key, "fa:localAddress("))
+	}
+	addrDiffers := func(differs bool) func(e *Expr) (ISet, bool) {
+		return func(e *Expr) (ISet, bool) {
+			if !isAddrCmp(e) {
+				return nil, false
+			}
+			op, _, _, _ := cmpOf(e)
+			return isConst(b2i((op == "!=") == differs)), true
+		}
+	}
+	type want struct {
+		name    string
+		hook    func(e *Expr) (ISet, bool)
+		handoff bool
+	}
+	okRemote := rangeHook(isSplitErr(0), isConst(0))
+	found := rangeHook(isExists, isConst(1))
+	for _, w := range []want{
+		{"source address unparsable", rangeHook(isSplitErr(0), isConst(1)), false},
+		{"source is not a configured peer", hooks(okRemote, rangeHook(isExists, isConst(0))), false},
+		{"configured peer, no local address configured", hooks(okRemote, found, rangeHook(isLocalValid, isConst(0))), true},
+		{"local address configured, destination unparsable", hooks(okRemote, found, rangeHook(isLocalValid, isConst(1)), rangeHook(isSplitErr(1), isConst(1))), false},
+		{"local address configured, destination differs", hooks(okRemote, found, rangeHook(isLocalValid, isConst(1)), rangeHook(isSplitErr(1), isConst(0)), addrDiffers(true)), false},
+		{"local address configured, destination equal", hooks(okRemote, found, rangeHook(isLocalValid, isConst(1)), rangeHook(isSplitErr(1), isConst(0)), addrDiffers(false)), true},
+	} {
+		a := NewAnalysis(p, fn)
+		a.AtomHook = w.hook
+		a.Run()
+		if len(a.Undecided) > 0 {
+			c.undecided(rule, "Server.handleInboundConn", w.name, p.Pos(fn.Pos()), a.Undecided[0])
+			continue
+		}
+		ok := len(a.Returns) > 0
+		detail := ""
+		for _, r := range a.Returns {
+			st := r.State
+			closed, handed := st.must["call:invoke:net.Conn.Close"], st.must["call:peer.incomingConnection"]
+			mayClose, mayHand := st.may["call:invoke:net.Conn.Close"], st.may["call:peer.incomingConnection"]
+			if w.handoff && !(handed && !mayClose) {
+				ok = false
+				detail = "the connection must be handed to the peer (and not closed here)"
+			}
+			if !w.handoff && !(closed && !mayHand) {
+				ok = false
+				detail = "the connection must be closed and never handed to a peer"
+			}
+			if st.may["call:invoke:net.Conn.Write"] {
+				ok = false
+				detail = "nothing may be written on an inbound connection here"
+			}
+		}
+		c.require(ok, rule, "Server.handleInboundConn", w.name, p.Pos(fn.Pos()), detail)
+	}
+	// the lookup key is the host part of the remote address; the comparison
+	// uses the parsed host part of the local address
+	a := NewAnalysis(p, fn)
+	a.Run()
+	nl := 0
+	allInstrs(fn, func(in ssa.Instruction) {
+		lk, ok := in.(*ssa.Lookup)
+		if !ok {
+			return
+		}
+		nl++
+		for _, st := range a.At[in] {
+			k := a.exprOf(st, nil, lk.Index)
+			okK := k.Op == "ex" && strings.Contains(k.Key, "net.SplitHostPort") && strings.Contains(k.Key, "RemoteAddr")
+			if okK {
+				i, _ := k.Args[1].IsConst()
+				okK = i == 0
+			}
+			c.require(okK, rule, "Server.handleInboundConn", "lookup key", p.InstrPos(in), "the registry is looked up with the host part of conn.RemoteAddr()")
+		}
+		held := p.lockHeld(fn, "mu")
+		c.require(held[in], lockRule, "Server.handleInboundConn", "lookup under lock", p.InstrPos(in), "the lookup runs with Server.mu held")
+	})
+	c.floor(rule, nl, 1, "registry lookups in handleInboundConn")
 }
